@@ -1,5 +1,7 @@
 import FxVerif.Model.C20
 import FxVerif.Model.C20Run
+import FxVerif.Model.C20Msg
+import FxVerif.Gen.C20Msg
 import FxVerif.Model.Util
 /-! line-protocol driver for the C20 model: `lake env lean --run Driver/C20.lean < ops.txt`
 
@@ -17,6 +19,13 @@ import FxVerif.Model.Util
   field name: `len:Tokens=2`, `big:Amount=12` (`big:X=nil` for a nil pointer), `zaddr:Refund=0`, `empty:Receipt=1`,
   `zarr:Target=0`, `num:SortBy=1`, `ext:ValidateModuleName:Chain=1`); `bad-args-type` when the method table generated from
   `NewPrecompiledContract` / `UnpackInput` names a different args struct than the harness decoded into
+* `mvb <program> <kind>:<hex key>=<value> …` → `ok | err | panic`: verdict of the validation program REGENERATED from the Go AST
+  (`Gen/C20Msg.lean`: `ValidateBasic` of every fx-core message / claim / proposal, interpreted by `Model.C20Msg.runAt`) on the
+  decoded message described by the features (`e` = an external validator / expression returned an error or is true, key =
+  function and argument paths joined by 0x01; `n` = the Int / Dec / pointer path is nil; `b` = its value; `a` = some coin of
+  the set has a nil amount; `l` = length; `u` = number; `s` = bytes of a string field, hex); `bad-prog` for an unknown program
+* `paddr <hex> <bech32 ok 0/1> <checksum ok 0/1>` → `bech32 | evm | err` (`fxtypes.ParseAddress`)
+* `ethaddr <hex> <checksum ok 0/1>` → `ok | empty | wrong-length | invalid-format | checksum` (`contract.ValidateEthereumAddress`)
 -/
 open FxVerif FxVerif.Util FxVerif.Model.C20Base FxVerif.Model.C20
 
@@ -64,9 +73,44 @@ def pcv (key tname : String) (feats : List String) : String :=
         | .ok => "ok" | .err => "err" | .panic => "panic"
   | _ => "bad-op"
 
+def strHex (s : String) : String := hex (s.toUTF8.toList.map (·.toNat))
+
+/-- environment of an `mvb` line -/
+def mvbEnv (kvs : List (String × String)) : FxVerif.Model.C20Msg.Env :=
+  let get (k : String) : Option String := (kvs.find? (·.1 == k)).map (·.2)
+  let key (kind : String) (parts : List String) : String := kind ++ ":" ++ strHex (String.intercalate "\x01" parts)
+  { ext := fun fn args => get (key "e" (fn :: args)) == some "1",
+    isNil := fun p => get (key "n" [p]) == some "1",
+    big := fun p => ((get (key "b" [p])).bind parseInt).getD 0,
+    anyNil := fun p => get (key "a" [p]) == some "1",
+    len := fun p => ((get (key "l" [p])).bind String.toNat?).getD 0,
+    num := fun p => ((get (key "u" [p])).bind parseInt).getD 0,
+    str := fun p => ((get (key "s" [p])).bind unhex).getD [] }
+
+def mvb (name : String) (feats : List String) : String :=
+  if (FxVerif.Gen.C20Msg.table.find name).isNone then "bad-prog" else
+  let kvs := feats.filterMap fun w => match w.splitOn "=" with | [k, v] => some (k, v) | _ => none
+  match FxVerif.Model.C20Msg.runAt FxVerif.Gen.C20Msg.table FxVerif.Model.C20Msg.msgFuel name (mvbEnv kvs) with
+  | .ok => "ok" | .err => "err" | .panic => "panic" | .cont => "bad-prog"
+
 def step (_ : Unit) (line : String) : Unit × String :=
   match words line with
   | "reset" :: _ => ((), "ok")
+  | "mvb" :: name :: feats => ((), mvb name feats)
+  | ["paddr", h, b, c] =>
+    -- bytes, not code points: Go's `len(address)` and the ASCII regular expression work on bytes
+    match (unhex h).map (fun bs => String.ofList (bs.map Char.ofNat)) with
+    | some s =>
+      ((), match parseAddress (fun _ => b == "1") (fun _ => c == "1") s.toList with
+        | .ok false => "bech32" | .ok true => "evm" | .error _ => "err")
+    | none => ((), "bad-op")
+  | ["ethaddr", h, c] =>
+    match (unhex h).map (fun bs => String.ofList (bs.map Char.ofNat)) with
+    | some s =>
+      ((), match validateEthereumAddress (fun _ => c == "1") s.toList with
+        | .ok () => "ok" | .error .empty => "empty" | .error .wrongLength => "wrong-length"
+        | .error .invalidFormat => "invalid-format" | .error .checksumMismatch => "checksum")
+    | none => ((), "bad-op")
   | "pcv" :: key :: tname :: feats => ((), pcv key tname feats)
   | ["fee", mode, msgs, exempt, maxB, gas, fee, prices] =>
     match maxB.toNat?, gas.toNat?, (parseList fee).mapM parsePair, (parseList prices).mapM parsePair with
